@@ -30,6 +30,16 @@ __CPROVER_ensures(__CPROVER_return_value == 0 ==> (g_flushed && !cout_obj.bad &&
 /* C07: a non-zero status comes with a diagnostic */
 __CPROVER_ensures(__CPROVER_return_value != 0 ==> g_diag > __CPROVER_old(g_diag));
 
+#include "dfs_main_help.inc"
+/* the --help option ends the program from inside the option loop: the same obligations as the normal tail */
+static int dfs_main_help(void)
+__CPROVER_requires(!cout_obj.bad && !g_flushed && g_diag < 1000)
+__CPROVER_assigns(cout_obj, g_diag, g_cmd_result, g_flushed)
+__CPROVER_ensures(__CPROVER_return_value == 0 || __CPROVER_return_value == 1)
+__CPROVER_ensures(__CPROVER_return_value == 0 ==> (g_flushed && !cout_obj.bad && g_cmd_result))
+__CPROVER_ensures(__CPROVER_return_value != 0 ==> g_diag > __CPROVER_old(g_diag));
+void h_main_help(void) { os_init(&cout_obj); g_flushed = 0; g_diag = nondet_ulong(); dfs_main_help(); }
+
 void h_main_tail(void)
 {
   os_init(&cout_obj); g_flushed = 0; g_diag = nondet_ulong();
